@@ -245,7 +245,7 @@ DATE_OFFSETS = [0, 1, 31, 366, -1, -365, 7, 40]
 def random_state_kw(rng, boundary=0.6):
     """keyword values of a version state (numeric, build, tag parts); calendar comes from a date"""
     pick = (lambda pool: rng.choice(pool)) if rng.random() < boundary else (lambda pool: rng.choice(pool[:4]))
-    tag = rng.choice(glue.TAGS + ["final", "final"])
+    tag = rng.choice(glue.TAGS + ["final", "final"] + (["preview"] if rng.random() < 0.3 else []))        # "preview": a spelling the recogniser accepts for a release candidate
     return dict(major=pick(NUM_POOL), minor=pick(NUM_POOL), patch=pick(NUM_POOL), bid=rng.choice(BUILD_POOL),
                 tag=tag, num=rng.choice(TAGNUM_POOL) if tag != "final" else 0,
                 inc0=pick(NUM_POOL[:5]), inc1=rng.choice([1, 2, 10, 100]))
